@@ -198,6 +198,10 @@ def py_run(emu, bus, n: int, lo: int = CODE_LO, hi: int = CODE_HI) -> List[list]
             info = emu.execute_instruction(pc)
             ln = int(info.instruction.length())
             err = None
+            if type(info.instruction).__name__ == "_FallbackInstruction":
+                # the repository decoder rejected the bytes and the emulator stepped over one byte:
+                # not a valid encoding, the run ends here unjudged
+                ln, err = -1, "fallback: not a valid encoding"
         except Exception as e:
             ln, err = -1, f"{type(e).__name__}: {e}"
         out.append(py_record(emu, bus, pc, opcode, ln, err))
